@@ -41,7 +41,7 @@ type Disk struct {
 	// their file numbers and serve stale cached blocks (timing dependent).
 	Bookkeeping bool
 	nbatch      int
-	// OnPCS: called once at the start of the next PutChangeSet (sequential mode: the flush window of an asynchronous Persist)
+	// OnPCS: called once when the next PutChangeSet has written its batch, before it returns (sequential mode: the flush window of an asynchronous Persist)
 	OnPCS func()
 
 	Gets, Seeks, Batches, GCs, Errors int
@@ -55,10 +55,6 @@ func (d *Disk) Get(k []byte) ([]byte, error) {
 }
 
 func (d *Disk) PutChangeSet(puts map[string][]byte, stores map[string][]byte) error {
-	if f := d.OnPCS; f != nil {
-		d.OnPCS = nil
-		f()
-	}
 	if d.env != nil && d.ParkPCS {
 		d.env.inPCS = true
 		d.env.park("f", "pcs")
@@ -79,7 +75,12 @@ func (d *Disk) PutChangeSet(puts map[string][]byte, stores map[string][]byte) er
 		p2[bookkeepingKey] = []byte{byte(d.nbatch), byte(d.nbatch >> 8)}
 		puts = p2
 	}
-	return d.inner.PutChangeSet(puts, stores)
+	err := d.inner.PutChangeSet(puts, stores)
+	if f := d.OnPCS; f != nil && err == nil {
+		d.OnPCS = nil
+		f()
+	}
+	return err
 }
 
 func (d *Disk) Seek(rng storage.SeekRange, f func(k, v []byte) bool) {
